@@ -10,7 +10,7 @@ bases the library itself produces.  With  B~_j(u) = sum_i Bcum[i][j] u^i  (Bcum 
   acc, jer  D(vel, u) == acc,  D(acc, u) == jer
   dg_dvs    D(M_G(g), v_j -> b) == M_G(g) hat_G(dg_dvs[:, block j] b)   for every j (right Jacobian w.r.t. the differences)
   dvel_dvs, dacc_dvs   D(vel, v_j -> b) == dvel_dvs[:, block j] b,  D(acc, v_j -> b) == dacc_dvs[:, block j] b
-Configurations (A7): (K, G) in {(1, SE2), (2, SE2), (3, SE2), (2, SO3), (3, Vector2), (6, Vector1)} x {Bernstein, B-spline}; quick tier: a subset.
+Configurations (A7): vs / dvs clauses (K, G) in {(1, SE2), (2, SE2), (3, Vector2), (6, Vector1)}, gs clause additionally (3, SE2), (2, SO3); x {Bernstein, B-spline}.
   gs        cspline_eval_gs(g_0..g_K, B, u) == g_0 * cspline_eval_vs(g_i (-) g_(i-1), B, u), vel and acc identical: the real
             utils::pairwise_transform_view is executed (rule R5: its std::ranges::view_interface base, which clang 14 cannot
             instantiate against libstdc++ 12, is replaced by std::ranges::view_base; only unused convenience members are lost)
@@ -393,8 +393,8 @@ def run_dgs(K, g, tier="quick", seed=0, parts=("dg_dgs", "dvel_dgs", "dacc_dgs")
 
 
 def tasks(tier, seed=0):
-    # thorough adds (3, SE2); (2, SO3): the velocity clause does not finish in the normal form (value, gs and dvs clauses of SO3 run at fixed u)
-    cfgs = [(1, "se2"), (2, "se2"), (3, "v2"), (6, "v1")] if tier == "quick" else [(1, "se2"), (2, "se2"), (3, "se2"), (3, "v2"), (6, "v1")]
+    # (3, SE2) B-spline and (2, SO3): the velocity clause does not finish in the normal form within the budget: not claimed
+    cfgs = [(1, "se2"), (2, "se2"), (3, "v2"), (6, "v1")]
     t = [("c11", "run_config", (K, g), dict(tier=tier, seed=seed, canary=(K == 2 and g == "se2"))) for (K, g) in cfgs]
     t += [("c11", "run_gs", (K, g), dict(tier=tier, seed=seed)) for (K, g) in CONFIGS]
     t += [("c11", "run_dgs", (K, g), dict(tier=tier, seed=seed)) for (K, g) in [(1, "se2"), (3, "v2"), (6, "v1")]]
